@@ -156,6 +156,21 @@ class Models:
                 m.write(st, (a0[1], a0[2]), list(a0[3]), ('adt', 'ListIter', 0, items[1:]))
                 return one(some(items[0]))
 
+        # ---------------- std::mem::replace / swap on places reached through &mut
+        if re.search(r'\bmem::replace$', c) and len(argv) == 2 and argv[0][0] == 'ref':
+            self.note('std::mem::replace(dest, src): returns the old value of *dest, stores src')
+            a0 = argv[0]
+            old = m.read(st, (a0[1], a0[2]), list(a0[3]))
+            m.write(st, (a0[1], a0[2]), list(a0[3]), argv[1])
+            return one(old)
+        if re.search(r'\bmem::swap$', c) and len(argv) == 2 and argv[0][0] == 'ref' and argv[1][0] == 'ref':
+            self.note('std::mem::swap(a, b): exchanges the two places')
+            a0, a1 = argv
+            va, vb = m.read(st, (a0[1], a0[2]), list(a0[3])), m.read(st, (a1[1], a1[2]), list(a1[3]))
+            m.write(st, (a0[1], a0[2]), list(a0[3]), vb)
+            m.write(st, (a1[1], a1[2]), list(a1[3]), va)
+            return one(('unit',))
+
         # ---------------- abstract sample buffers (quantile entry points): see Machine.buf_elem
         r = self.buffers(m, st, fid, callee, c, argv)
         if r is not None:
